@@ -37,6 +37,9 @@ type SpecP struct {
 	Partition int32   `json:"partition,omitempty"`
 	Limit     int32   `json:"limit"`
 	Claims    int     `json:"claims,omitempty"`
+	// TemplateVolumes: 1 = the pod template itself declares volumes: an emptyDir and a persistentVolumeClaim
+	// volume named like the first claim template (legal; the claim template's volume takes its place in every pod)
+	TemplateVolumes int `json:"template_volumes,omitempty"`
 	// SelExpr: the selector uses matchExpressions only (no matchLabels)
 	SelExpr bool `json:"sel_expr,omitempty"`
 	// ClaimLabels: claim templates carry labels of their own
@@ -150,7 +153,7 @@ type Op struct {
 	// Fault2 hits the Fault2Off-th call after the first fault, in the same reconcile (0 = none)
 	Fault2    int    `json:"fault2,omitempty"`
 	Fault2Off int    `json:"fault2_off,omitempty"`
-	FaultAt   int    `json:"fault_at,omitempty"`   // 1-based call index the fault hits; 0 = none; -1 = the first status write of the reconcile
+	FaultAt   int    `json:"fault_at,omitempty"`   // 1-based call index the fault hits; 0 = none; -1 = the first status write of the reconcile, -2 = the first pod create, -3 = the first pod delete, -4 = the first ControllerRevision delete
 	Fault     int    `json:"fault,omitempty"`      // fault kind
 	InterAt   int    `json:"inter_at,omitempty"`   // 1-based call index before which an environment op runs; 0 = none
 	InterKind int    `json:"inter_kind,omitempty"` // env op kind (kubelet / refresh / edit …), same encoding as K
@@ -257,6 +260,12 @@ func applySpec(set *asv1.StatefulSet, s SpecP) {
 	l := s.Limit
 	set.Spec.RevisionHistoryLimit = &l
 	set.Spec.VolumeClaimTemplates = claimTemplates(s.Claims)
+	if s.TemplateVolumes == 1 {
+		set.Spec.Template.Spec.Volumes = []corev1.Volume{
+			{Name: "scratch", VolumeSource: corev1.VolumeSource{EmptyDir: &corev1.EmptyDirVolumeSource{}}},
+			{Name: "data", VolumeSource: corev1.VolumeSource{PersistentVolumeClaim: &corev1.PersistentVolumeClaimVolumeSource{ClaimName: "shared-data", ReadOnly: true}}},
+		}
+	}
 	if s.ClaimLabels {
 		for i := range set.Spec.VolumeClaimTemplates {
 			set.Spec.VolumeClaimTemplates[i].Labels = map[string]string{"tier": "storage"}
@@ -342,8 +351,18 @@ func mkPod(set *asv1.StatefulSet, ord int, revName, image string, phase int, ter
 	p.Spec.Hostname = name
 	p.Spec.Subdomain = set.Spec.ServiceName
 	for _, ct := range set.Spec.VolumeClaimTemplates {
-		p.Spec.Volumes = append(p.Spec.Volumes, corev1.Volume{Name: ct.Name, VolumeSource: corev1.VolumeSource{
-			PersistentVolumeClaim: &corev1.PersistentVolumeClaimVolumeSource{ClaimName: fmt.Sprintf("%s-%s-%d", ct.Name, set.Name, ord)}}})
+		vol := corev1.Volume{Name: ct.Name, VolumeSource: corev1.VolumeSource{
+			PersistentVolumeClaim: &corev1.PersistentVolumeClaimVolumeSource{ClaimName: fmt.Sprintf("%s-%s-%d", ct.Name, set.Name, ord)}}}
+		replaced := false
+		for i := range p.Spec.Volumes {
+			if p.Spec.Volumes[i].Name == ct.Name {
+				p.Spec.Volumes[i] = vol // a template volume of the same name gives way to the claim's
+				replaced = true
+			}
+		}
+		if !replaced {
+			p.Spec.Volumes = append(p.Spec.Volumes, vol)
+		}
 	}
 	setPhase(p, phase)
 	if term {
@@ -939,6 +958,16 @@ func (s *Sys) Reconcile(op *Op) *sim.Record {
 			faultDone = true
 			return s.makeFault(op.Fault, a)
 		}
+		if op.FaultAt == -4 && !faultDone && a.Resource == "controllerrevisions" && a.Verb == "delete" {
+			faultDone = true
+			fault1At = n
+			return s.makeFault(op.Fault, a)
+		}
+		if (op.FaultAt == -2 || op.FaultAt == -3) && !faultDone && a.Resource == "pods" && a.Verb == map[int]string{-2: "create", -3: "delete"}[op.FaultAt] {
+			faultDone = true
+			fault1At = n
+			return s.makeFault(op.Fault, a)
+		}
 		return nil
 	}
 	var r *sim.Record
@@ -1108,8 +1137,14 @@ func genOps(rt *rapid.T, maxOps int, w opWeights, faults, interference bool) []O
 			}
 			if faults && rapid.IntRange(0, 5).Draw(rt, "faulty") == 0 {
 				op.FaultAt = rapid.IntRange(1, 12).Draw(rt, "faultAt")
-				if rapid.IntRange(0, 3).Draw(rt, "faultOnStatusWrite") == 0 {
+				// a third of the faults are aimed: at the status write, at the first pod create, at the first pod delete
+				switch rapid.IntRange(0, 8).Draw(rt, "faultTarget") {
+				case 0:
 					op.FaultAt = -1
+				case 1:
+					op.FaultAt = -2
+				case 2:
+					op.FaultAt = -3
 				}
 				op.Fault = rapid.SampledFrom([]int{FServerError, FTimeoutLost, FTimeoutApplied, FConflict, FNotFound, FAlreadyExists}).Draw(rt, "fault")
 			}
